@@ -167,6 +167,11 @@ func (v *Vue) evaluateNodeAsElement(ctx VueContext, node *html.Node, depth int) 
 		return result, nil
 	}
 
+	// An include that is a member of a v-if chain is included like any other include
+	if node.Data == "template" && helpers.HasAttr(node, "include") {
+		return v.evalTemplate(ctx, []*html.Node{node}, ctx.stack.EnvMap(), depth+1)
+	}
+
 	// Special handling for template tags: evaluate bound attributes and set them in current scope
 	if node.Data == "template" {
 		// For templates, bound attributes modify the current scope (don't create new scope)
